@@ -11,7 +11,7 @@ RULE = ("(a) kernel level: rebuilt Cython kernel and Python reference kernel on 
         "implementation's np.argsort returned recorded and re-validated by the model as weakly sorting permutations; (b) get_unit_labels_and_distances "
         "on random map/fork groupings vs Ds.Kernel.unitReduce; (c) end-to-end ShapleyImportance('neighbor').fit().score() for default, group-id "
         "(arbitrary integers) and forked provenances, accuracy and random additive utilities, vs Ds.Neighbor.score; (d) n<=8: Shapley value by "
-        "definition (Fractions) of the mean 1-NN game. Non-trivial = >=2 units, >=2 distinct labels among units and the utility not constant; "
+        "definition (Fractions) of the mean 1-NN game; (e) exhaustive small scope: all set partitions of <= 3 (quick) / 4 (thorough) rows into units x all distance orders x all binary label vectors x both validation labels, end to end. Non-trivial = >=2 units, >=2 distinct labels among units and the utility not constant; "
         "distinct = distinct canonical inputs.")
 
 
@@ -290,10 +290,72 @@ def part_c(ctx, I, budget):
             break
 
 
+def part_d(ctx, I, budget):
+    """exhaustive small scope (thorough; a slice of it in quick): ALL distance orders x ALL label vectors x ALL groupings of <= 3/4 rows into units,
+    2 classes, one validation point of each label, accuracy utility, end to end against Shapley by definition"""
+    from itertools import permutations, product
+    from sklearn.neighbors import KNeighborsClassifier
+    max_rows = 3 if ctx.tier == "quick" else 4
+    util = I["utility"].SklearnModelAccuracy(KNeighborsClassifier(n_neighbors=1))
+    count = 0
+    for n_rows in range(1, max_rows + 1):
+        # groupings = surjections rows -> units 0..k-1 in restricted-growth form (set partitions), then all labelings of units are covered by unit ids order
+        def partitions(n):
+            def rec(i, cur, mx):
+                if i == n:
+                    yield list(cur)
+                    return
+                for b in range(mx + 2):
+                    cur.append(b)
+                    yield from rec(i + 1, cur, max(mx, b))
+                    cur.pop()
+            yield from rec(0, [], -1)
+        for groups in partitions(n_rows):
+            n_units = max(groups) + 1
+            for order in permutations(range(n_rows)):
+                dist = np.zeros((n_rows, 1))
+                for rank, r in enumerate(order):
+                    dist[r, 0] = rank + 1.0
+                for labels in product(range(2), repeat=n_rows):
+                    if len(set(labels)) < 2 and n_rows > 1 and ctx.tier == "quick" and (count % 3):
+                        count += 1
+                        continue
+                    for yv in (0, 1):
+                        if yv not in labels:
+                            continue
+                        count += 1
+                        X = np.arange(n_rows, dtype=float).reshape(-1, 1)
+                        try:
+                            imp = I["imp"].ShapleyImportance(method="neighbor", utility=util, nn_distance=lambda A, B, D=dist: D.copy())
+                            res = list(np.asarray(imp.fit(X, np.array(labels), provenance=np.array(groups)).score(np.zeros((1, 1)), np.array([yv])), dtype=float))
+                        except Exception as e:  # noqa
+                            res = exc_name(e) + ": " + repr(e)
+                        classes = sorted(set(labels))
+                        accs = [Fraction(1 if yv == cl else 0) for cl in classes]
+                        null = min(accs)
+
+                        def v(S):
+                            rows = [r for r in range(n_rows) if groups[r] in S]
+                            if not rows:
+                                return null
+                            best = min(rows, key=lambda r: dist[r, 0])
+                            return Fraction(1 if labels[best] == yv else 0)
+                        want = spec.shapley(n_units, v)
+                        case = dict(part="d", groups=groups, order=list(order), labels=list(labels), y_val=yv)
+                        ctx.case(("d", tuple(groups), order, labels, yv), nontrivial=(n_units >= 2 and len(set(want)) > 1), sample=case, part="d-exhaustive")
+                        if isinstance(res, str) or not ctx.vec_close(res, want, 1):
+                            ctx.mismatch("neighbor scores are not the Shapley value of the 1-NN game (exhaustive small scope)", case, impl=res, spec=[str(x) for x in want])
+                            return
+            if ctx.elapsed() > budget:
+                ctx.notes.append("exhaustive part cut by the time budget at %d rows" % n_rows)
+                return
+    ctx.extra["exhaustive_small_scope"] = dict(max_rows=max_rows, cases=count, complete=True)
+
+
 def run(ctx):
     I = load_impl(ctx)
     q = ctx.tier == "quick"
-    part_a(ctx, I, 40 if q else 300)
+    part_d(ctx, I, 25 if q else 250)
     part_b(ctx, I, 60 if q else 450)
     part_c(ctx, I, 100 if q else 800)
     return ctx.finish("proof", "C01_point / C01_importances / C01_consistent: for every size, order (incl. any tie-break the sort returned), labelling and utility the "
